@@ -212,3 +212,14 @@ Definition wf_b (f : flow) : bool :=
   && acyclic_b f
   && forallb (fun t => mem t (consumed f)) (provided f)
   && forallb (fun t => Bool.eqb (match touts t with [] => true | _ => false end) (tinvoke t)) (ftasks f).
+
+(* ---------- cff.Slice / cff.Map (compile_parallel.go:309,365,370) ---------- *)
+Section ParallelTypes.
+  (* go/types.AssignableTo(V, T): an oracle (Go library) *)
+  Variable assignable : nat -> nat -> bool.
+  (* the collection's element (key, value) type must be assignable to the function's parameter *)
+  Definition accept_slice (elem param : nat) : bool := assignable elem param.
+  Definition accept_map (key value kparam vparam : nat) : bool := assignable key kparam && assignable value vparam.
+  (* the check as it was before fix 6eedc36: arguments reversed *)
+  Definition accept_slice_reversed (elem param : nat) : bool := assignable param elem.
+End ParallelTypes.
